@@ -143,6 +143,12 @@ let rec existsb f = function
 | [] -> false
 | a :: l0 -> (||) (f a) (existsb f l0)
 
+(** val forallb : ('a1 -> bool) -> 'a1 list -> bool **)
+
+let rec forallb f = function
+| [] -> true
+| a :: l0 -> (&&) (f a) (forallb f l0)
+
 (** val firstn : nat -> 'a1 list -> 'a1 list **)
 
 let rec firstn n0 l =
@@ -4104,3 +4110,403 @@ let itemcount_total blocks =
     let (p, z0) = count_triple rb in
     let (x, y0) = p in (((N.add a x), (N.add b y0)), (N.add c z0))) blocks
     ((N0, N0), N0)
+
+(** val exp_q : val0 -> val0 **)
+
+let exp_q g =
+  VR ((Some (oval (rr_name g))) :: ((Some
+    (oval (rr_ct g))) :: (None :: (None :: []))))
+
+(** val exp_rr : n -> val0 -> val0 **)
+
+let exp_rr hrr g =
+  VR ((Some (oval (rr_name g))) :: ((Some
+    (oval (rr_ct g))) :: ((bit hrr N0 (rr_ttl g)) :: ((bit hrr (Npos XH)
+                                                        (rr_rdata g)) :: []))))
+
+(** val exp_qsec : n -> n -> val0 option -> val0 option **)
+
+let exp_qsec h b ov =
+  if N.testbit h b
+  then (match section ov with
+        | Some gl -> Some (VL (map exp_q gl))
+        | None -> None)
+  else None
+
+(** val exp_rrsec : n -> n -> n -> val0 option -> val0 option **)
+
+let exp_rrsec hrr h b ov =
+  if N.testbit h b
+  then (match section ov with
+        | Some gl -> Some (VL (map (exp_rr hrr) gl))
+        | None -> None)
+  else None
+
+(** val sigb : bparams -> n -> val0 option -> val0 option **)
+
+let sigb bp k ov =
+  if N.testbit bp.h_qr (Npos (XO (XO XH))) then bit bp.h_sig k ov else None
+
+(** val exp_qr : bparams -> val0 option list -> val0 option list **)
+
+let exp_qr bp gr =
+  let g = nth_o gr in
+  let hq = bp.h_qr in
+  let hr = bp.h_rr in
+  (bit hq N0 (g O)) :: ((bit hq (Npos XH) (g (S O))) :: ((bit hq (Npos (XO
+                                                           XH)) (g (S (S O)))) :: (
+  (bit hq (Npos (XI XH)) (g (S (S (S O))))) :: ((sigb bp N0
+                                                  (g (S (S (S (S O)))))) :: (
+  (sigb bp (Npos XH) (g (S (S (S (S (S O))))))) :: ((sigb bp (Npos (XO XH))
+                                                      (g (S (S (S (S (S (S
+                                                        O)))))))) :: (
+  (sigb bp (Npos (XI XH)) (g (S (S (S (S (S (S (S O))))))))) :: ((sigb bp
+                                                                   (Npos (XO
+                                                                   (XO XH)))
+                                                                   (g (S (S
+                                                                    (S (S (S
+                                                                    (S (S (S
+                                                                    O)))))))))) :: (
+  (sigb bp (Npos (XI (XO XH))) (g (S (S (S (S (S (S (S (S (S O))))))))))) :: (
+  (sigb bp (Npos (XO (XI XH))) (g (S (S (S (S (S (S (S (S (S (S O)))))))))))) :: (
+  (sigb bp (Npos (XI (XI XH)))
+    (g (S (S (S (S (S (S (S (S (S (S (S O))))))))))))) :: ((sigb bp (Npos (XO
+                                                             (XO (XO XH))))
+                                                             (g (S (S (S (S
+                                                               (S (S (S (S (S
+                                                               (S (S (S
+                                                               O)))))))))))))) :: (
+  (sigb bp (Npos (XI (XO (XO XH))))
+    (g (S (S (S (S (S (S (S (S (S (S (S (S (S O))))))))))))))) :: ((sigb bp
+                                                                    (Npos (XO
+                                                                    (XI (XO
+                                                                    XH))))
+                                                                    (g (S (S
+                                                                    (S (S (S
+                                                                    (S (S (S
+                                                                    (S (S (S
+                                                                    (S (S (S
+                                                                    O)))))))))))))))) :: (
+  (sigb bp (Npos (XI (XI (XO XH))))
+    (g (S (S (S (S (S (S (S (S (S (S (S (S (S (S (S O))))))))))))))))) :: (
+  (sigb bp (Npos (XO (XO (XI XH))))
+    (g (S (S (S (S (S (S (S (S (S (S (S (S (S (S (S (S O)))))))))))))))))) :: (
+  (sigb bp (Npos (XI (XO (XI XH))))
+    (g (S (S (S (S (S (S (S (S (S (S (S (S (S (S (S (S (S O))))))))))))))))))) :: (
+  (sigb bp (Npos (XO (XI (XI XH))))
+    (g (S (S (S (S (S (S (S (S (S (S (S (S (S (S (S (S (S (S
+      O)))))))))))))))))))) :: ((sigb bp (Npos (XI (XI (XI XH))))
+                                  (g (S (S (S (S (S (S (S (S (S (S (S (S (S
+                                    (S (S (S (S (S (S O))))))))))))))))))))) :: (
+  (sigb bp (Npos (XO (XO (XO (XO XH)))))
+    (g (S (S (S (S (S (S (S (S (S (S (S (S (S (S (S (S (S (S (S (S
+      O)))))))))))))))))))))) :: ((bit hq (Npos (XI (XO XH)))
+                                    (g (S (S (S (S (S (S (S (S (S (S (S (S (S
+                                      (S (S (S (S (S (S (S (S
+                                      O))))))))))))))))))))))) :: ((bit hq
+                                                                    (Npos (XO
+                                                                    (XI XH)))
+                                                                    (g (S (S
+                                                                    (S (S (S
+                                                                    (S (S (S
+                                                                    (S (S (S
+                                                                    (S (S (S
+                                                                    (S (S (S
+                                                                    (S (S (S
+                                                                    (S (S
+                                                                    O)))))))))))))))))))))))) :: (
+  (bit hq (Npos (XI (XI XH)))
+    (g (S (S (S (S (S (S (S (S (S (S (S (S (S (S (S (S (S (S (S (S (S (S (S
+      O))))))))))))))))))))))))) :: ((bit hq (Npos (XO (XO (XO XH))))
+                                       (g (S (S (S (S (S (S (S (S (S (S (S (S
+                                         (S (S (S (S (S (S (S (S (S (S (S (S
+                                         O)))))))))))))))))))))))))) :: (
+  (bit hq (Npos (XI (XO (XO XH))))
+    (g (S (S (S (S (S (S (S (S (S (S (S (S (S (S (S (S (S (S (S (S (S (S (S
+      (S (S O))))))))))))))))))))))))))) :: ((bit hq (Npos (XO (XI (XO XH))))
+                                               (g (S (S (S (S (S (S (S (S (S
+                                                 (S (S (S (S (S (S (S (S (S
+                                                 (S (S (S (S (S (S (S (S
+                                                 O)))))))))))))))))))))))))))) :: (
+  (bit hq (Npos (XO (XI (XO XH))))
+    (g (S (S (S (S (S (S (S (S (S (S (S (S (S (S (S (S (S (S (S (S (S (S (S
+      (S (S (S (S O))))))))))))))))))))))))))))) :: ((exp_qsec hq (Npos (XI
+                                                       (XI (XO XH))))
+                                                       (g (S (S (S (S (S (S
+                                                         (S (S (S (S (S (S (S
+                                                         (S (S (S (S (S (S (S
+                                                         (S (S (S (S (S (S (S
+                                                         (S
+                                                         O)))))))))))))))))))))))))))))) :: (
+  (exp_rrsec hr hq (Npos (XO (XO (XI XH))))
+    (g (S (S (S (S (S (S (S (S (S (S (S (S (S (S (S (S (S (S (S (S (S (S (S
+      (S (S (S (S (S (S O))))))))))))))))))))))))))))))) :: ((exp_rrsec hr hq
+                                                               (Npos (XI (XO
+                                                               (XI XH))))
+                                                               (g (S (S (S (S
+                                                                 (S (S (S (S
+                                                                 (S (S (S (S
+                                                                 (S (S (S (S
+                                                                 (S (S (S (S
+                                                                 (S (S (S (S
+                                                                 (S (S (S (S
+                                                                 (S (S
+                                                                 O)))))))))))))))))))))))))))))))) :: (
+  (exp_rrsec hr hq (Npos (XO (XI (XI XH))))
+    (g (S (S (S (S (S (S (S (S (S (S (S (S (S (S (S (S (S (S (S (S (S (S (S
+      (S (S (S (S (S (S (S (S O))))))))))))))))))))))))))))))))) :: (
+  (exp_qsec hq (Npos (XI (XI (XO XH))))
+    (g (S (S (S (S (S (S (S (S (S (S (S (S (S (S (S (S (S (S (S (S (S (S (S
+      (S (S (S (S (S (S (S (S (S O)))))))))))))))))))))))))))))))))) :: (
+  (exp_rrsec hr hq (Npos (XI (XI (XI XH))))
+    (g (S (S (S (S (S (S (S (S (S (S (S (S (S (S (S (S (S (S (S (S (S (S (S
+      (S (S (S (S (S (S (S (S (S (S O))))))))))))))))))))))))))))))))))) :: (
+  (exp_rrsec hr hq (Npos (XO (XO (XO (XO XH)))))
+    (g (S (S (S (S (S (S (S (S (S (S (S (S (S (S (S (S (S (S (S (S (S (S (S
+      (S (S (S (S (S (S (S (S (S (S (S O)))))))))))))))))))))))))))))))))))) :: (
+  (exp_rrsec hr hq (Npos (XI (XO (XO (XO XH)))))
+    (g (S (S (S (S (S (S (S (S (S (S (S (S (S (S (S (S (S (S (S (S (S (S (S
+      (S (S (S (S (S (S (S (S (S (S (S (S
+      O))))))))))))))))))))))))))))))))))))) :: ((g (S (S (S (S (S (S (S (S
+                                                   (S (S (S (S (S (S (S (S (S
+                                                   (S (S (S (S (S (S (S (S (S
+                                                   (S (S (S (S (S (S (S (S (S
+                                                   (S
+                                                   O))))))))))))))))))))))))))))))))))))) :: (
+  (g (S (S (S (S (S (S (S (S (S (S (S (S (S (S (S (S (S (S (S (S (S (S (S (S
+    (S (S (S (S (S (S (S (S (S (S (S (S (S
+    O)))))))))))))))))))))))))))))))))))))) :: ((g (S (S (S (S (S (S (S (S (S
+                                                  (S (S (S (S (S (S (S (S (S
+                                                  (S (S (S (S (S (S (S (S (S
+                                                  (S (S (S (S (S (S (S (S (S
+                                                  (S (S
+                                                  O))))))))))))))))))))))))))))))))))))))) :: []))))))))))))))))))))))))))))))))))))))
+
+(** val exp_mm : val0 option list -> val0 option list **)
+
+let exp_mm gm =
+  let g = nth_o gm in
+  (g O) :: ((g (S O)) :: ((g (S (S O))) :: ((g (S (S (S O)))) :: ((g (S (S (S
+                                                                    (S O))))) :: (
+  (g (S (S (S (S (S O)))))) :: ((g (S (S (S (S (S (S O))))))) :: []))))))
+
+(** val exp_aec : val0 option list -> n -> val0 **)
+
+let exp_aec ga c =
+  VR ((nth_o ga O) :: ((nth_o ga (S O)) :: ((nth_o ga (S (S O))) :: ((Some
+    (oval (nth_o ga (S (S (S O)))))) :: ((Some (VN c)) :: [])))))
+
+(** val tps_of : blk -> z **)
+
+let tps_of b =
+  Z.of_N b.b_bp.bp_tps
+
+(** val new_qr : bparams -> val0 option list -> val0 list **)
+
+let new_qr bp gr =
+  if filled (exp_qr bp gr) then (VR (exp_qr bp gr)) :: [] else []
+
+(** val new_mm : bparams -> val0 option list -> val0 list **)
+
+let new_mm bp gm =
+  if N.testbit bp.h_other N0
+  then if filled (exp_mm gm) then (VR (exp_mm gm)) :: [] else []
+  else []
+
+(** val log_qr : exporter -> xop list -> val0 list **)
+
+let rec log_qr x = function
+| [] -> []
+| o :: r ->
+  app (match o with
+       | XQr (gr, _) -> new_qr x.x_blk.b_bp gr
+       | _ -> []) (log_qr (fst (xstep x o)) r)
+
+(** val log_mm : exporter -> xop list -> val0 list **)
+
+let rec log_mm x = function
+| [] -> []
+| o :: r ->
+  app (match o with
+       | XMm (gm, _) -> new_mm x.x_blk.b_bp gm
+       | _ -> []) (log_mm (fst (xstep x o)) r)
+
+(** val has_tyb : ty -> val0 -> bool **)
+
+let rec has_tyb t v =
+  match t with
+  | TU bits ->
+    (match v with
+     | VN n0 ->
+       (&&) (N.ltb n0 (N.pow (Npos (XO XH)) bits))
+         ((||)
+           ((||)
+             ((||) (N.eqb bits (Npos (XO (XO (XO XH)))))
+               (N.eqb bits (Npos (XO (XO (XO (XO XH)))))))
+             (N.eqb bits (Npos (XO (XO (XO (XO (XO XH))))))))
+           (N.eqb bits (Npos (XO (XO (XO (XO (XO (XO XH)))))))))
+     | _ -> false)
+  | TI ->
+    (match v with
+     | VZ z0 ->
+       (&&) (Z.leb (Z.opp (Z.of_N two63)) z0) (Z.ltb z0 (Z.of_N two63))
+     | _ -> false)
+  | TBool -> (match v with
+              | VB _ -> true
+              | _ -> false)
+  | TTime ->
+    (match v with
+     | VL xs ->
+       (match xs with
+        | [] -> false
+        | v0 :: l ->
+          (match v0 with
+           | VN s ->
+             (match l with
+              | [] -> false
+              | v1 :: l0 ->
+                (match v1 with
+                 | VN k ->
+                   (match l0 with
+                    | [] -> (&&) (N.ltb s two64) (N.ltb k two64)
+                    | _ :: _ -> false)
+                 | _ -> false))
+           | _ -> false))
+     | _ -> false)
+  | TArr e ->
+    (match v with
+     | VL xs ->
+       (&&) (N.ltb (N.of_nat (length xs)) two64)
+         (let rec all = function
+          | [] -> true
+          | x :: l' -> (&&) (has_tyb e x) (all l')
+          in all xs)
+     | _ -> false)
+  | TIdx ->
+    (match v with
+     | VL xs ->
+       (&&) (N.ltb (N.of_nat (length xs)) two64)
+         (let rec all = function
+          | [] -> true
+          | x :: l' ->
+            (&&)
+              (match x with
+               | VN n0 ->
+                 N.ltb n0
+                   (N.pow (Npos (XO XH)) (Npos (XO (XO (XO (XO (XO XH)))))))
+               | _ -> false) (all l')
+          in all xs)
+     | _ -> false)
+  | TMap (sk, fs) -> (match v with
+                      | VR vs -> fields_tyb sk fs vs
+                      | _ -> false)
+  | _ ->
+    (match v with
+     | VS bs ->
+       (&&) (N.ltb (N.of_nat (length bs)) two64)
+         (forallb (fun b ->
+           N.ltb b (Npos (XO (XO (XO (XO (XO (XO (XO (XO XH)))))))))) bs)
+     | _ -> false)
+
+(** val fields_tyb : bool -> fields -> val0 option list -> bool **)
+
+and fields_tyb sk fs vs =
+  match fs with
+  | FNil -> (match vs with
+             | [] -> true
+             | _ :: _ -> false)
+  | FCons (k, p, t, r) ->
+    (match vs with
+     | [] -> false
+     | v :: vs' ->
+       (&&)
+         ((&&)
+           (if sk
+            then (&&) (Z.leb (Zneg (XO (XO (XO (XO (XO (XO (XO XH)))))))) k)
+                   (Z.ltb k (Zpos (XO (XO (XO (XO (XO (XO (XO XH)))))))))
+            else (&&) (Z.leb Z0 k)
+                   (Z.ltb k (Zpos (XO (XO (XO (XO (XO (XO (XO (XO XH)))))))))))
+           (match p with
+            | MandNE ->
+              (match v with
+               | Some x ->
+                 (&&) (has_tyb t x)
+                   (negb
+                     (match x with
+                      | VL xs -> (match xs with
+                                  | [] -> true
+                                  | _ :: _ -> false)
+                      | _ -> false))
+               | None -> false)
+            | Opt -> (match v with
+                      | Some x -> has_tyb t x
+                      | None -> true)
+            | NonEmpty ->
+              (match v with
+               | Some v0 ->
+                 (match v0 with
+                  | VL xs -> has_tyb t (VL xs)
+                  | _ -> false)
+               | None -> false)
+            | _ -> (match v with
+                    | Some x -> has_tyb t x
+                    | None -> false))) (fields_tyb sk r vs'))
+
+(** val typed_blkb : blk -> bool **)
+
+let typed_blkb b =
+  has_tyb block (blk_val b)
+
+(** val typed_xb : exporter -> bool **)
+
+let typed_xb x =
+  (&&) (forallb typed_blkb x.x_done) (has_tyb filePreamble (preamble_val x))
+
+(** val good_timeb : z -> val0 option -> bool **)
+
+let good_timeb tps = function
+| Some v ->
+  (match v with
+   | VL xs ->
+     (match xs with
+      | [] -> false
+      | v0 :: l ->
+        (match v0 with
+         | VN s ->
+           (match l with
+            | [] -> false
+            | v1 :: l0 ->
+              (match v1 with
+               | VN k ->
+                 (match l0 with
+                  | [] ->
+                    (&&)
+                      ((&&) ((&&) (Z.leb (Zpos XH) tps) (Z.ltb tps m64))
+                        (Z.ltb (Z.of_N k) tps))
+                      (Z.ltb (Z.add (Z.mul (Z.of_N s) tps) (Z.of_N k)) m63)
+                  | _ :: _ -> false)
+               | _ -> false))
+         | _ -> false))
+   | _ -> false)
+| None -> true
+
+(** val hn_next : exporter -> n -> n **)
+
+let hn_next x hn =
+  if N.eqb x.x_written N0 then N.of_nat (length x.x_params) else hn
+
+(** val adm1b : exporter -> n -> xop -> bool **)
+
+let adm1b x hn = function
+| XQr (gr, _) -> good_timeb (tps_of x.x_blk) (nth_o gr O)
+| XMm (gm, _) -> good_timeb (tps_of x.x_blk) (nth_o gm O)
+| XSetBp i ->
+  (||) ((||) (N.eqb x.x_written N0) (N.ltb i hn))
+    (N.leb (N.of_nat (length x.x_params)) i)
+| _ -> true
+
+(** val admb : exporter -> n -> xop list -> bool **)
+
+let rec admb x hn = function
+| [] -> true
+| o :: r -> (&&) (adm1b x hn o) (admb (fst (xstep x o)) (hn_next x hn) r)
